@@ -617,3 +617,37 @@ pub mod verif_hooks_psdcone_scaling {
         out.data().to_vec()
     }
 }
+
+// ---------------------------------------------------------------------------
+// verification hooks (feature `verif-hooks`), third group: the matrix that
+// `step_length_psd_component` hands to LAPACK, and `margins` together with the
+// eigenvalues it obtained.  No behaviour is added.
+// ---------------------------------------------------------------------------
+#[cfg(feature = "verif-hooks")]
+pub mod verif_hooks_psdcone_step {
+    use super::*;
+
+    /// column-major n×n data of `workΔ` as `step_length_psd_component` builds it from `d`
+    /// right before the `eigvals` call: `svec_to_mat(workΔ, d); workΔ.lrscale(Λisqrt, Λisqrt)`
+    pub fn scaled_direction_matrix<T: FloatT>(k: &mut PSDTriangleCone<T>, d: &[T]) -> Vec<T> {
+        let data = &mut *k.data;
+        svec_to_mat(&mut data.workmat1, d);
+        data.workmat1.lrscale(&data.Λisqrt, &data.Λisqrt);
+        data.workmat1.data().to_vec()
+    }
+    /// `margins(z)` together with the eigenvalues it read from LAPACK (empty for an
+    /// empty cone, where LAPACK is not called)
+    pub fn margins_with_eigs<T: FloatT>(
+        k: &mut PSDTriangleCone<T>,
+        z: &mut [T],
+        pd: PrimalOrDualCone,
+    ) -> ((T, T), Vec<T>) {
+        let r = k.margins(z, pd);
+        let e = if z.is_empty() {
+            vec![]
+        } else {
+            k.data.Eig.λ.clone()
+        };
+        (r, e)
+    }
+}
